@@ -146,6 +146,13 @@ class C14(Prop):
         if status != "OK":
             return [Mismatch(stream="c14.paint", case=case, impl="%d shapes" % len(f), model=outs[0][:200])]
         d = paint_diff(f, shapes)
+        if not d and isinstance(obs["t"], list) and len(obs["t"]) == len(shapes):
+            # reified stroke width against the model of reify() (Model/Reify.strokeWidth)
+            for i, (o, w) in enumerate(zip(obs["t"], shapes)):
+                d = dg.reified_diff(o, w, geometry=False)
+                if d:
+                    d = "shape %d: %s" % (i, d)
+                    break
         # specification, judged with the model's prediction at hand (known-finding attribution)
         self._spec(case, obs, None if d else shapes)
         if d:
